@@ -374,6 +374,10 @@ fn write_sequence(out: &mut impl io::Write, seq: u64) -> Result<usize, io::Error
 }
 
 fn read_sequence(source: &mut impl io::Read, len: usize) -> Result<u64, io::Error> {
+    if len > 8 {
+        return Err(io::Error::new(io::ErrorKind::InvalidData, "invalid sequence length"));
+    }
+
     let mut seq_scratch = [0; 8];
     source.read_exact(&mut seq_scratch[0..len])?;
     Ok(u64::from_le_bytes(seq_scratch))
